@@ -73,9 +73,25 @@ def build_xml(rng, level=3):
         ET.SubElement(act, "general", {"name": "c26int", "joint": jn, "dyntype": "integrator", "gainprm": "0.1"})
         if rng.random() < 0.5:
             ET.SubElement(act, "motor", {"name": "c26m", "joint": jn, "nsample": "3", "delay": "0.004"})
+    # multi-input actuators: the control vector has nu entries in blocks of actuator_ctrlnum, so nu != nactuator
+    # (pid servo: 1-3 inputs; orientation servo on a ball joint: 3 (expmap) or 4 (quat) inputs)
+    if level >= 1 and rng.random() < 0.7:
+        if act is None:
+            act = ET.SubElement(root, "actuator")
+        if joints:
+            for q in range(int(rng.integers(1, 3))):
+                jn = joints[int(rng.integers(0, len(joints)))].get("name")
+                ET.SubElement(act, "pid", {"name": "c26pid%d" % q, "joint": jn, "kp": "2", "kv": "0.1",
+                                           "input": str(rng.choice(["pos", "pos vel", "pos vel ff", "pos ff", "vel", "ff", "vel ff"]))})
+        balls = [j for b in wb.iter("body") for j in b.findall("joint") if j.get("type") == "ball" and j.get("name")]
+        for j in balls[:2]:
+            a = {"name": "c26ori_" + j.get("name"), "joint": j.get("name"), "kp": "1", "dampratio": "1"}
+            if rng.random() < 0.5:
+                a["input"] = "quat"
+            ET.SubElement(act, "orientation", a)
     if act is not None and level >= 2:
         for a in list(act):
-            if rng.random() < 0.4 and "nsample" not in a.attrib:
+            if rng.random() < 0.4 and "nsample" not in a.attrib and a.tag not in ("pid", "orientation"):
                 n = int(rng.integers(1, 6))
                 a.set("nsample", str(n))
                 if rng.random() < 0.6:
@@ -479,7 +495,7 @@ def history_reference(m):
     exp = np.zeros(nh)
     mask = np.zeros(nh, dtype=bool)
     dt = m.opt["timestep"]
-    for (cnt, hist, adr, dimf) in ((m.n("nu"), "actuator_history", "actuator_historyadr", None),
+    for (cnt, hist, adr, dimf) in ((m["actuator_history"].reshape(-1, 2).shape[0], "actuator_history", "actuator_historyadr", None),
                                   (m.n("nsensor"), "sensor_history", "sensor_historyadr", "sensor_dim")):
         for i in range(cnt):
             n = int(m[hist].reshape(-1, 2)[i, 0])
